@@ -353,11 +353,7 @@ func registerIntrinsics(e *Engine) {
 	})
 	reg("vParam", func(x *Exec, a []Value) Value {
 		n := cstr(x, a[0])
-		v, ok := x.eng.params[n]
-		if !ok {
-			panic(unsupported("unknown parameter " + n))
-		}
-		return mkBV(64, uint64(v))
+		return mkBV(64, uint64(x.eng.params[n])) // absent parameters read as 0
 	})
 	reg("vSymbolic", func(x *Exec, a []Value) Value { return TTrue })
 	reg("vMaybeNil", func(x *Exec, a []Value) Value {
